@@ -1083,7 +1083,9 @@ func (d *driver) rejectPayload(kind string) []byte {
 		w := compress.NewSnappyWriter()
 		_, _ = w.Write([]byte{0xde, 0xad, 0xbe, 0xef, 1, 2, 3, 4, 5, 6, 7, 8, 9, 10, 11, 12, 13, 14, 15, 16, byte(n), byte(n >> 8)})
 		_ = w.Close()
-		return w.Bytes()
+		data := w.Bytes()
+		_ = w.Close() // Bytes() re-arms the writer (a goroutine of the s2 stream writer); the writer is dropped here
+		return data
 	default:
 		return []byte{1, 2, 3, byte(n), byte(n >> 8), 0xff}
 	}
